@@ -92,6 +92,30 @@ int32_t checkSigAlg(ssl_t *ssl,
         return PS_FAILURE;
     }
 # endif
+# if defined(USE_TLS_1_3) && defined(USE_PKCS1_PSS)
+    if (USING_TLS_1_3(ssl) && certSigAlg == OID_RSASSA_PSS)
+    {
+        /* Likewise for certificates signed with RSASSA-PSS. */
+        psSize_t i;
+
+        for (i = 0; i < keySelect->peerCertSigAlgsLen; i++)
+        {
+            switch (keySelect->peerCertSigAlgs[i])
+            {
+            case sigalg_rsa_pss_rsae_sha256:
+            case sigalg_rsa_pss_rsae_sha384:
+            case sigalg_rsa_pss_rsae_sha512:
+            case sigalg_rsa_pss_pss_sha256:
+            case sigalg_rsa_pss_pss_sha384:
+            case sigalg_rsa_pss_pss_sha512:
+                return PS_SUCCESS;
+            default:
+                break;
+            }
+        }
+        return PS_FAILURE;
+    }
+# endif
 
     if (USING_TLS_1_3(ssl))
     {
